@@ -732,7 +732,7 @@ func (c *Ctx) err5() {
 		for _, p := range c.Paths("ERR-5", rb) {
 			for i := range p.Events {
 				e := &p.Events[i]
-				if e.Kind != pathx.KStore || e.Fn != rb || pathx.RoleOfAddr(e.Addr).Key() != "Client.reconnectWait" {
+				if e.Kind != pathx.KStore || !c.inRegion(rb, e) || pathx.RoleOfAddr(e.Addr).Key() != "Client.reconnectWait" {
 					continue
 				}
 				v := e.Instr.(*ssa.Store).Val
